@@ -108,8 +108,8 @@ impl Property for C13 {
     }
     fn runs(&self, tier: Tier) -> u64 {
         match tier {
-            Tier::Quick => 4000,
-            Tier::Thorough => 40000,
+            Tier::Quick => 30000,
+            Tier::Thorough => 300000,
         }
     }
     fn rule(&self) -> &'static str {
